@@ -73,7 +73,7 @@ func genCrashHistory(r *rand.Rand, quick bool) *plan.Plan {
 		names = append(names, k)
 	}
 	sort.Strings(names)
-	inc1 := plan.Incarnation{Boot: "full", SchedSeed: r.Uint64() | 1}
+	inc1 := plan.Incarnation{Boot: "full", SchedSeed: r.Uint64()>>11 | 1}
 	for _, ix := range names {
 		inc1.Ops = append(inc1.Ops, matchAll(ix, idxs[ix]+100), countQuery(ix))
 	}
